@@ -20,11 +20,18 @@ for id in "$@"; do
   $V/bin/ggqlcheck -verif $SV -property all -tier quick -no-controls -list > $SV/out.txt 2>&1
   git -C /repo checkout -- .
   prop=$(python3 -c "import json;print(json.load(open('$d/meta.json'))['property'])")
-  grep -E "^  (violated|undecided) " $SV/out.txt | sed -e 's/[[:space:]]*$//' | cut -c 1-400 > $d/check_output.txt
-  grep -E "^VIOLATION|cannot" $SV/out.txt | cut -c 1-300 >> $d/check_output.txt
-  own=$(grep -c "^  violated *$prop\." $d/check_output.txt)
-  others=$(grep "^  violated" $d/check_output.txt | grep -vc "^  violated *$prop\.")
-  und=$(grep -c "^  undecided" $d/check_output.txt)
+  python3 - $SV/evidence/violations > $d/check_output.txt <<'PY'
+import json,glob,sys
+rows=[]
+for f in sorted(glob.glob(sys.argv[1]+'/*.json')):
+    v=json.load(open(f))
+    rows.append("%-9s %-10s %-13s %s | %s | %s"%(v.get('status','violated'),v['property'],v['rule'],v['construct'],v.get('pos',''),(v.get('detail') or '')[:220]))
+print("\n".join(sorted(rows)))
+PY
+  grep -v "^  " $SV/out.txt | grep -E "cannot|CONTROL|panic" | cut -c 1-300 >> $d/check_output.txt
+  own=$(grep -c "^VIOLATION property=$prop " $SV/out.txt)
+  others=$(grep "^VIOLATION property=" $SV/out.txt | grep -vc "^VIOLATION property=$prop ")
+  und=$(grep -c "^undecided" $d/check_output.txt)
   if [ "$own" -gt 0 ]; then v=DETECTED; else v=MISSED; rc=1; fi
   echo "$id property=$prop $v own-rule-reports=$own other-property-reports=$others undecided=$und"
 done
